@@ -7,7 +7,7 @@ Fault transparency for the seekable reader (`Model/Records.lean`, `Model/Reader.
 
 Every parser that contains no `attempt` is `Tight`: transparent to a fault that is not reached, and
 returning exactly the injected error when it is.  So is `getDirectoryCounts` (since the D18 repair its
-two `attempt`s only swallow `InvalidArchive` / `InvalidInput`, never an injected I/O error).
+probe seek is `?`-propagated and the one `attempt` only swallows `InvalidArchive`, never an I/O error of any kind).
 `openArchive` turns a failed seek into `InvalidArchive`: it is `Uniform` and `ErrOnFire`.  `newAppend`
 ignores the result of its last seek: the one place of the reader side where a fired fault is not
 reported (`newAppend_ignored_seek`).  The streaming reader is `Tight` as well.
@@ -139,7 +139,7 @@ theorem bind_err_of {α β} {x : M α} (f : α → M β) {fa : Option Nat} {d : 
 
 theorem seek_start_apply (n : Nat) (fa : Option Nat) (d : Dev) :
     M.seek (.start n) fa d =
-      if fa = some d.calls then (.err (.io .injected), d.shift 1)
+      if fa = some d.calls then (.err (.io d.fkind), d.shift 1)
       else (.ok n, { d.shift 1 with pos := n }) := by
   unfold M.seek M.prim
   dsimp only
@@ -147,11 +147,11 @@ theorem seek_start_apply (n : Nat) (fa : Option Nat) (d : Dev) :
   · rfl
   · simp [Dev.shift]
 
-/-! ### `get_directory_counts`: the ZIP64 probe (after the D18 repair) -/
+/-! ### `get_directory_counts`: the ZIP64 probe (after the D18 repair, both parts) -/
 
-/-- **`get_directory_counts` reports every injected fault as that very error** — at the probe seek, in
-the locator parse, in the ZIP64 end-record search.  (Before D18 the probe seek's failure was taken for
-"no ZIP64 records".) -/
+/-- **`get_directory_counts` reports every injected fault as that very error, whatever its kind** — at the
+probe seek, in the locator parse, in the ZIP64 end-record search.  (Before D18 every failure of the probe
+seek was taken for "no ZIP64 records"; after its first part a failure of kind `InvalidInput` still was.) -/
 theorem getDirectoryCounts_tight (footer : Eocd) (cde : Nat) : Tight (getDirectoryCounts footer cde) := by
   unfold getDirectoryCounts; fault
 macro_rules | `(tactic| fault_step) => `(tactic| with_reducible exact getDirectoryCounts_tight _ _)
@@ -167,17 +167,8 @@ def countsNoZip64 (footer : Eocd) (cdeStart : Nat) : Out (Nat × Nat × Nat) :=
             footer.cdOffset.toNat + (cdeStart - footer.cdSize.toNat - footer.cdOffset.toNat),
             footer.filesOnDisk.toNat)
 
-/-- The part of `get_directory_counts` after the probe seek. -/
-def afterProbe (footer : Eocd) (cdeStart : Nat) (sk : Except ZErr Nat) : M (Nat × Nat × Nat) := do
-  let loc : Option Locator ← match sk with
-    | .ok _ => do
-      let r ← M.attempt parseLocator
-      match r with
-      | .ok l => pure (some l)
-      | .error .invalidArchive => pure none
-      | .error e => M.throw e
-    | .error (.io .invalidInput) => pure none
-    | .error e => M.throw e
+/-- The part of `get_directory_counts` after the locator question is settled. -/
+def afterLocator (footer : Eocd) (cdeStart : Nat) (loc : Option Locator) : M (Nat × Nat × Nat) :=
   match loc with
   | none =>
     let sz := footer.cdSize.toNat
@@ -195,15 +186,30 @@ def afterProbe (footer : Eocd) (cdeStart : Nat) (sk : Except ZErr Nat) : M (Nat 
       if ds ≥ 18446744073709551616 then M.throw .invalidArchive else
       pure (archiveOffset, ds, f64.files.toNat)
 
+/-- The locator parse behind a successful probe seek. -/
+def probeLocator : M (Option Locator) := do
+  let r ← M.attempt parseLocator
+  match r with
+  | .ok l => pure (some l)
+  | .error .invalidArchive => pure none
+  | .error e => M.throw e
+
+/-- `get_directory_counts`, split at the probe: with the end record less than 20 bytes into the file there is
+no I/O at all; otherwise the probe seek is an ordinary `?`-propagated call. -/
 theorem getDirectoryCounts_eq (footer : Eocd) (cdeStart : Nat) :
     getDirectoryCounts footer cdeStart =
-      (M.attempt (M.seek (probePos footer)) >>= afterProbe footer cdeStart) := rfl
+      if cdeStart < 20 then afterLocator footer cdeStart none
+      else (M.seek (probePos footer) >>= fun _ => probeLocator >>= afterLocator footer cdeStart) := by
+  unfold getDirectoryCounts afterLocator probeLocator probePos
+  split
+  · rfl
+  · rw [M.bind_assoc]; rfl
 
-/-- The probe seek, spelled out: the injected fault; else `InvalidInput` iff the file is shorter than
-locator + end record + comment (the target would be negative); else success. -/
+/-- The probe seek, spelled out: the injected fault (of the device's kind); else `InvalidInput` iff the file
+is shorter than locator + end record + comment (the target would be negative); else success. -/
 theorem probe_seek_apply (footer : Eocd) (fa : Option Nat) (d : Dev) :
     M.seek (probePos footer) fa d =
-      if fa = some d.calls then (.err (.io .injected), d.shift 1)
+      if fa = some d.calls then (.err (.io d.fkind), d.shift 1)
       else if d.buf.length < 42 + footer.comment.length then (.err (.io .invalidInput), d.shift 1)
       else (.ok (d.buf.length - (42 + footer.comment.length)),
             { d.shift 1 with pos := d.buf.length - (42 + footer.comment.length) }) := by
@@ -218,36 +224,32 @@ theorem probe_seek_apply (footer : Eocd) (fa : Option Nat) (d : Dev) :
           = d.buf.length - (42 + footer.comment.length) := by omega
       simp only [this, Dev.shift]
 
-/-- **`probe_negative_seek_tolerated`.**  The one seek failure `get_directory_counts` still tolerates:
-the file is shorter than `42 + comment` bytes, so the probe position would be negative and the seek is
-refused with `InvalidInput` before any I/O is attempted on the data.  Then (the probe call itself not
-being the injected fault) there is no locator to look at and the answer comes from the 22-byte end
-record; one I/O call is made. -/
-theorem probe_negative_seek_tolerated (footer : Eocd) (cde : Nat) (fa : Option Nat) (d : Dev)
-    (hfa : fa ≠ some d.calls) (hshort : d.buf.length < 42 + footer.comment.length) :
-    getDirectoryCounts footer cde fa d = (countsNoZip64 footer cde, d.shift 1) := by
-  rw [getDirectoryCounts_eq, M.bind_apply, M.attempt_apply, probe_seek_apply, if_neg hfa, if_pos hshort]
-  unfold afterProbe countsNoZip64
-  simp only [M.bind_apply, M.pure_apply]
+/-- **`probe_skipped_without_room`.**  "There is no room for a locator" is decided from the known position of
+the end record, not from an error: found less than 20 bytes into the file (an empty archive), no locator fits
+in front of it, and `get_directory_counts` answers from the 22-byte end record WITHOUT ANY I/O call — for
+every fault index and every device, so no failure can be mistaken for anything here. -/
+theorem probe_skipped_without_room (footer : Eocd) (cde : Nat) (fa : Option Nat) (d : Dev)
+    (h20 : cde < 20) :
+    getDirectoryCounts footer cde fa d = (countsNoZip64 footer cde, d) := by
+  rw [getDirectoryCounts_eq, if_pos h20]
+  unfold afterLocator countsNoZip64
+  dsimp only
   split <;> rfl
 
-/-- **… and it is the only one**: every other error of the probe seek is returned by
-`get_directory_counts` as it is. -/
-theorem probe_other_seek_error_reported (footer : Eocd) (cde : Nat) (fa : Option Nat) (d d' : Dev)
-    (e : ZErr) (hs : M.seek (probePos footer) fa d = (.err e, d')) (he : e ≠ .io .invalidInput) :
+/-- **`probe_seek_error_reported`**: with the end record at 20 or later, EVERY error of the probe seek — of
+whatever kind, `InvalidInput` included — is returned by `get_directory_counts` as it is; nothing else is
+attempted. -/
+theorem probe_seek_error_reported (footer : Eocd) (cde : Nat) (fa : Option Nat) (d d' : Dev)
+    (e : ZErr) (h20 : 20 ≤ cde) (hs : M.seek (probePos footer) fa d = (.err e, d')) :
     getDirectoryCounts footer cde fa d = (.err e, d') := by
-  rw [getDirectoryCounts_eq, M.bind_apply, M.attempt_apply, hs]
-  unfold afterProbe
-  dsimp only
-  rcases e with (k | _ | _ | _ | _) <;> try rfl
-  cases k <;> first | rfl | exact absurd rfl he
+  rw [getDirectoryCounts_eq, if_neg (by omega), M.bind_apply, hs]
 
-/-- In particular the injected fault at the probe seek is reported (D18 regression statement). -/
-theorem probe_injected_fault_reported (footer : Eocd) (cde : Nat) (d : Dev) :
-    getDirectoryCounts footer cde (some d.calls) d = (.err (.io .injected), d.shift 1) := by
-  apply probe_other_seek_error_reported footer cde (some d.calls) d (d.shift 1) (.io .injected)
-  · rw [probe_seek_apply, if_pos rfl]
-  · intro h; cases h
+/-- In particular the injected fault at the probe seek is reported, whatever the kind of error the device
+fails with (D18 regression statement). -/
+theorem probe_injected_fault_reported (footer : Eocd) (cde : Nat) (d : Dev) (h20 : 20 ≤ cde) :
+    getDirectoryCounts footer cde (some d.calls) d = (.err (.io d.fkind), d.shift 1) := by
+  apply probe_seek_error_reported footer cde (some d.calls) d (d.shift 1) (.io d.fkind) h20
+  rw [probe_seek_apply, if_pos rfl]
 
 /-! ### `ZipArchive::new` -/
 
@@ -383,11 +385,11 @@ def readEntries (ext : Ext) (a : Archive) (pw : Option Bytes) (fa : Option Nat) 
      (readEntries ext a pw fa is (byIndexRead ext a i pw fa d).2).2)
 
 /-- Reading entries under a fault: identical to the fault-free reads (results and device), or one of
-the reads reports the injected error. -/
+the reads reports the injected error (an I/O error of the kind the device fails with). -/
 theorem readEntries_dichotomy (ext : Ext) (a : Archive) (pw : Option Bytes) (k : Nat) :
     ∀ (is : List Nat) (d : Dev),
       readEntries ext a pw (some k) is d = readEntries ext a pw none is d ∨
-      .err (.io .injected) ∈ (readEntries ext a pw (some k) is d).1 := by
+      .err (.io d.fkind) ∈ (readEntries ext a pw (some k) is d).1 := by
   intro is
   induction is with
   | nil => intro d; exact Or.inl rfl
@@ -397,12 +399,14 @@ theorem readEntries_dichotomy (ext : Ext) (a : Archive) (pw : Option Bytes) (k :
     unfold readEntries
     by_cases hf : Fired k d (byIndexRead ext a i pw (some k) d).2
     · right
-      rw [ht.clean k d hf]
+      rw [ht.reports hf]
       exact List.mem_cons_self
     · rw [ht.uni.same_of_not_fired hf]
       rcases ih (byIndexRead ext a i pw none d).2 with h | h
       · left; rw [h]
-      · right; exact List.mem_cons_of_mem _ h
+      · right
+        rw [ht.uni.kind] at h
+        exact List.mem_cons_of_mem _ h
 
 /-- `ZipArchive::new`, then every entry read to its end in index order. -/
 def openAndReadAll (ext : Ext) (pw : Option Bytes) (fa : Option Nat) (d : Dev) :
@@ -417,7 +421,7 @@ of the entry reads reports the injected error. -/
 theorem openAndReadAll_dichotomy (ext : Ext) (pw : Option Bytes) (k : Nat) (d : Dev) :
     openAndReadAll ext pw (some k) d = openAndReadAll ext pw none d ∨
     (∃ e, (openAndReadAll ext pw (some k) d).1 = .err e) ∨
-    .err (.io .injected) ∈ (openAndReadAll ext pw (some k) d).2.1 := by
+    .err (.io d.fkind) ∈ (openAndReadAll ext pw (some k) d).2.1 := by
   unfold openAndReadAll
   rcases openArchive_uniform.dich k d with ⟨e, _⟩ | ⟨f, _⟩
   · rw [e]
@@ -425,7 +429,10 @@ theorem openAndReadAll_dichotomy (ext : Ext) (pw : Option Bytes) (k : Nat) (d : 
     · dsimp only
       rcases readEntries_dichotomy ext a pw k (List.range a.files.length) d' with h | h
       · left; rw [h]
-      · right; right; exact h
+      · right; right
+        have hk := openArchive_uniform.kind none d
+        rw [‹openArchive none d = _›] at hk
+        rw [← hk]; exact h
     · left; rfl
     · left; rfl
   · obtain ⟨e, he⟩ := openArchive_errOnFire k d f
@@ -457,9 +464,34 @@ macro_rules | `(tactic| fault_step) => `(tactic| with_reducible exact streamCent
 is tolerated anywhere. -/
 theorem streamVisit_tight (ext : Ext) : Tight (streamVisit ext) := by unfold streamVisit; fault
 
--- c11: restate.  `streamEntryC` / `streamEntriesC` (partial consumption, then `ZipFile::drop`) are no longer
--- `Tight`: the drain of `ZipFile::drop` (`Model.drain`) swallows a read error, as the code does
--- (`Err(_) => break`), so a fault that fires inside the drain is NOT returned as that error.  The former lemmas
--- `streamEntryC_tight` / `streamEntriesC_tight` stated the opposite about a model without the drain.
+/-! ### Partial consumption + `ZipFile::drop` (`streamEntryC` / `streamEntriesC`)
+
+The drain of `ZipFile::drop` (`Model.drain`) swallows a read error, as the code does (`Err(_) => break`): these
+functions are NOT `Tight` — a fault that fires inside the drain is not returned by any call (known finding K-J,
+`Props.C11.stream_drain_fault_swallowed`).  What holds for every consumption pattern is `Uniform`: the call
+counter is monotone, the device's error kind is kept, and a fault index that is not reached changes nothing. -/
+
+theorem takeLoop_uniform (chunk : Nat) : ∀ fuel want : Nat, Uniform (takeLoop chunk fuel want)
+  | 0, _ => by unfold takeLoop; fault
+  | fuel + 1, want => by
+    have ih := takeLoop_uniform chunk fuel
+    unfold takeLoop
+    repeat (first | exact ih _ | fault_step)
+macro_rules | `(tactic| fault_step) => `(tactic| with_reducible exact takeLoop_uniform _ _ _)
+
+theorem drain_uniform (rem : Nat) : Uniform (drain rem) := by unfold drain; fault
+macro_rules | `(tactic| fault_step) => `(tactic| with_reducible exact drain_uniform _)
+
+theorem streamEntryC_uniform (ext : Ext) (c : Consume) : Uniform (streamEntryC ext c) := by
+  unfold streamEntryC; fault
+macro_rules | `(tactic| fault_step) => `(tactic| with_reducible exact streamEntryC_uniform _ _)
+
+theorem streamEntriesC_uniform (ext : Ext) (pattern : List Consume) :
+    ∀ fuel i : Nat, Uniform (streamEntriesC ext pattern fuel i)
+  | 0, _ => by unfold streamEntriesC; fault
+  | fuel + 1, i => by
+    have ih := streamEntriesC_uniform ext pattern fuel
+    unfold streamEntriesC
+    repeat (first | exact ih _ | fault_step)
 
 end ZipVerif.Model
